@@ -309,6 +309,45 @@ pub fn run(ctx: &Ctx) {
             }
         }
     }
+    // ---- equality, constant-time equality, conditional selection, Default, indexing
+    {
+        use subtle::{Choice, ConditionallySelectable, ConstantTimeEq};
+        let mut vals: Vec<U> = alpha::sc_reduced(60);
+        // values that differ in exactly one byte position (first, middle, last) from another
+        for pos in [0usize, 15, 30, 31] {
+            let mut b = U::from_u64(5).to_le32();
+            b[pos] ^= 1;
+            let x = U::from_le(&b);
+            if x < lm {
+                vals.push(x);
+            }
+        }
+        vals.push(U::from_u64(5));
+        for a in &vals {
+            for b in &vals {
+                ctx.eval(1);
+                let (ra, rb) = (real::scalar(a), real::scalar(b));
+                let same = a == b;
+                let mut bad = vec![];
+                if (ra == rb) != same || bool::from(ra.ct_eq(&rb)) != same {
+                    bad.push("eq");
+                }
+                if Scalar::conditional_select(&ra, &rb, Choice::from(0)).to_bytes() != a.to_le32() || Scalar::conditional_select(&ra, &rb, Choice::from(1)).to_bytes() != b.to_le32() {
+                    bad.push("conditional_select");
+                }
+                if (0..32).any(|i| ra[i] != a.to_le32()[i]) {
+                    bad.push("index");
+                }
+                for e in bad {
+                    ctx.violation(&format!("sc.{}", e), "equality / selection / indexing disagrees with the values", json!({"kind": "sc_eq", "a": a.hex(), "b": b.hex()}));
+                }
+            }
+        }
+        ctx.eval(1);
+        if Scalar::default().to_bytes() != [0u8; 32] {
+            ctx.violation("sc.default", "Default is not zero", json!({"kind": "sc_default"}));
+        }
+    }
     // ---- sums, products, batch inversion over sequences
     {
         let pool: Vec<U> = vec![U::ONE, U::from_u64(2), lm.sub(&U::ONE), U::pow2(252), lm.sub(&U::ONE).shr(1), U::pow2(260).rem(&lm)];
